@@ -80,7 +80,15 @@ class HTTPConnection(ConnectionInterface):
                         # the pool has given up on it. Have the pool assign this request
                         # to another connection, rather than connecting on this one.
                         raise ConnectionNotAvailable()
-                    stream = self._connect(request)
+                    try:
+                        stream = self._connect(request)
+                    except BaseException:
+                        # Record the failure before the lock is released, so
+                        # that a request waiting for the lock cannot start
+                        # another attempt on a connection that the pool is
+                        # about to drop.
+                        self._connect_failed = True
+                        raise
 
                     ssl_object = stream.get_extra_info("ssl_object")
                     http2_negotiated = (
